@@ -151,6 +151,54 @@ def r5_accumulator(ctx, cb):
                   "the marker expansion can be pushed although no unique token id was determined", site=cb.where())
 
 
+def r6_chop_tokens(ctx):
+    """Token healing (`TokTrie::chop_tokens`): the caller removes `chop_idx` whole tokens and treats the returned byte count
+    as the text they spanned (it becomes the pending prefix of the next mask, and the prompt is cut by it).  The count
+    must therefore be the accumulated `token_len` of the removed tokens — not the length of the extendable tail, which
+    is shorter whenever the tail starts in the middle of a token."""
+    R = "C13-R6"
+    TT_ = "toktrie::toktree::TokTrie"
+    b = ctx.body(TT_ + "::chop_tokens")
+    tl = b.call_blocks(TT_ + "::token_len")
+    # accumulators: locals assigned `acc = (acc + token_len(..))`
+    accs = set()
+    for l, ds in b.defs().items():
+        for (bi, si, kind, r) in ds:
+            if kind != "assign":
+                continue
+            e = b.expr_rvalue(r) if r["rv"] != "use" else b.expr(r["o"])
+            if e[0] == "bin" and e[1].startswith("Add"):
+                sides = (e[2], e[3])
+                if any(x[0] == "call" and x[1] == TT_ + "::token_len" for x in sides) and any(
+                        (x[0] == "local" and x[1] == l) or (x[0] == "place" and x[1] == [l]) for x in sides):
+                    accs.add(l)
+    ctx.check(bool(tl) and len(accs) == 1, R, "chop_tokens:accumulates-token_len", "the bytes of the removed tokens are summed with token_len",
+              "chop_tokens no longer accumulates token_len over the removed tokens", site=b.where())
+    rets = []
+    for bi, si, st in b.statements():
+        r = st.get("r", {})
+        if st["s"] == "assign" and st["p"] == [0] and r.get("rv") == "agg" and r.get("kind") == "tuple" and len(r["ops"]) == 2:
+            if "iv" in r["ops"][1]:
+                continue  # the (0, 0) "nothing to chop" result
+            pl = F.op_place(r["ops"][1])
+            l = pl[0] if pl else None
+            for _ in range(4):
+                ds = b.defs().get(l, []) if l is not None else []
+                if l in accs or b.locals[l].get("n") or len(ds) != 1 or ds[0][2] != "assign" or ds[0][3]["rv"] != "use":
+                    break
+                nx = F.op_place(ds[0][3]["o"])
+                if not nx:
+                    break
+                l = nx[0]
+            rets.append((bi, l))
+    if ctx.floor(R, "non-trivial results of chop_tokens", len(rets), 1):
+        bad = [bi for bi, l in rets if l not in accs]
+        ctx.check(not bad, R, "chop_tokens:returns-whole-token-bytes", "the returned byte count is the accumulated length of the removed tokens",
+                  "chop_tokens returns a byte count that is not the accumulated token_len of the tokens it tells the caller to remove "
+                  "(e.g. the length of the extendable tail): when the tail starts mid-token, prompt text is lost and the next mask "
+                  "is computed for a too-short pending prefix", site=b.where(bad[0]) if bad else b.where())
+
+
 def run(ctx):
     P = ctx.prog
     # ---------------------------------------------------------------- R1
@@ -205,6 +253,7 @@ def run(ctx):
     # id, or a multi-token range) resets it to None *and is final*: no later Some assignment is reachable from
     # the conflict before the accumulator is re-initialised.  (Seed C13-r2: `break 'spec` -> `break`.)
     r5_accumulator(ctx, cb)
+    r6_chop_tokens(ctx)
 
     # ---------------------------------------------------------------- R2 forced_byte
     f = ctx.body(PS + "::forced_byte")
